@@ -35,6 +35,19 @@ BASE_CFGS = [
     {"rx": 128, "tx": 1152, "client_id": b("wrap"), "ka": 60, "sei": 300, "first_id": 65530},
 ]
 
+# wills whose properties are not legal on a will (Will::new must refuse them), and a legal one with every will property
+BADWILL_CFGS = [
+    {"rx": 128, "tx": 256, "client_id": b("bw1"), "ka": 0, "sei": 0,
+     "will": {"topic": b("w"), "payload": b("x"), "qos": 0, "retain": False, "props": [{"id": 0x23, "n": 1}]}},
+    {"rx": 128, "tx": 256, "client_id": b("bw2"), "ka": 0, "sei": 0,
+     "will": {"topic": b("w"), "payload": b("x"), "qos": 1, "retain": False, "props": [{"id": 0x01, "n": 1}, {"id": 0x0B, "n": 5}]}},
+    {"rx": 200, "tx": 320, "client_id": b("gw"), "ka": 0, "sei": 0,
+     "will": {"topic": b("w/all"), "payload": b("x"), "qos": 2, "retain": True,
+              "props": [{"id": 0x18, "n": 7}, {"id": 0x01, "n": 0}, {"id": 0x02, "n": 60}, {"id": 0x03, "s": b("text/plain"), "t": []},
+                        {"id": 0x08, "s": b("resp/t"), "t": []}, {"id": 0x09, "s": [1, 2, 3], "t": []},
+                        {"id": 0x26, "s": b("a"), "t": b("b")}, {"id": 0x26, "s": b("a"), "t": b("c")}]}},
+]
+
 TIME_CFGS = [dict(BASE_CFGS[0], ka=k, client_id=b("ka%d" % k)) for k in (0, 1, 2, 3, 4, 5, 6, 7, 8, 9, 10, 11, 60)]
 
 PROFILES = {
@@ -73,7 +86,7 @@ COMMON = [
     ("cancel", BASE_CFGS[:4], 50, 500),
     ("inbound", BASE_CFGS[:4], 40, 400),
     ("limits", BASE_CFGS[:4], 40, 400),
-    ("invalid", BASE_CFGS[:2], 20, 200),
+    ("invalid", BASE_CFGS[:2] + BADWILL_CFGS, 25, 250),
     ("garbage", BASE_CFGS[:4], 40, 400),
     ("arena", [BASE_CFGS[0], {"rx": 256, "tx": 320, "client_id": b("ar"), "ka": 0, "sei": 60},
                {"rx": 256, "tx": 512, "client_id": b("ar2"), "ka": 0, "sei": 60}], 45, 450),
